@@ -326,7 +326,21 @@ def b_sorted(I, x, key=None, reverse=False):
         # concrete items, key function evaluated by the executor; only concrete keys can be ordered
         keys = [I.call(key, [i], {}) for i in items]
         if any(is_z3(k) for k in keys):
-            raise Unsupported("sorted with symbolic keys")
+            # few items with symbolic integer keys: stable insertion sort, one path per outcome of each comparison
+            if len(items) > 4 or not all(is_z3(k) and k.is_int() or isinstance(k, int) for k in keys):
+                raise Unsupported("sorted with symbolic keys")
+            order = []
+            for i in range(len(items)):
+                pos = len(order)
+                while pos > 0:
+                    kp, ki = keys[order[pos - 1]], keys[i]
+                    before = (kp < ki) if reverse else (kp > ki)     # the new item goes in front of order[pos-1]
+                    if I.path.branch(before):
+                        pos -= 1
+                    else:
+                        break
+                order.insert(pos, i)
+            return [items[i] for i in order]
         try:
             return [i for _, i in sorted(zip(keys, range(len(items))), reverse=reverse) for i in [items[i]]]
         except TypeError:
@@ -550,6 +564,12 @@ def builtin_getattr(I, obj, attr, node=None):
     if isinstance(obj, SymList):
         if attr == "append":
             def sl_append(I, x):
+                if hasattr(x, "pyvc_ite"):
+                    # a structured element (stub object with symbolic fields): the element class merges field-wise
+                    old_at, n = obj.at, obj.n
+                    obj.at = lambda k: x.pyvc_ite(k < n, old_at(k), x)
+                    obj.n = n + 1
+                    return
                 if not isinstance(x, (int, z3.ExprRef)):
                     raise Unsupported("SymList.append of a non-scalar")
                 old_at, n, xv = obj.at, obj.n, to_term(x)
